@@ -197,6 +197,17 @@ CHECKS = {
             "sources of different islands >= 3.5 FWHM apart, >= 14 px from the edges; pixel coordinates away from rounding ties; noise-free.",
             "TLA+ model (stage table + integer cut-out registration) checked by TLC + TLC trace validation of real priorized runs on exact-model images",
             "4/C05"),
+    "C13": ("exploration",
+            "Polarity.tla defines Filter(cat, nopositive, nonegative), NegateCat and NegateRun; TLC proves the partition theorems (Pos and Neg "
+            "disjoint, union = Both, signs as requested, negation is an involution) over every catalogue of <= 4 rows x the 16-element option "
+            "lattice {nopositive, nonegative} x {forced, file-supplied rms/bkg} x {original, negated input} and emits the lattice. Every lattice "
+            "element is driven on real find_sources_in_image runs on seeded mixed-sign images (isolated sources, blends, a dedicated class with both "
+            "signs inside one island); TLC (Polarity_Trace) validates the partition clauses exactly (float-identity tokens incl. numbering) and the "
+            "negation symmetry on fixed-point rows.",
+            "symmetry verdict at max(1 ppm, 1/4 of the row's quoted sigma) (3 sigma for components of blended islands) because lmfit's bounded-parameter "
+            "transform is not bit-symmetric (measured jitter); the strict 1 ppm level is reported as information; err_pa of circular fits not compared.",
+            "TLA+/TLC model checking of the filter algebra + TLC batch trace validation of run groups (Both / PosOnly / NegOnly / negated input)",
+            "4/C13"),
 }
 
 NOT_YET = "check not built yet in this round of construction (planned, see DESIGN.md section 4)"
